@@ -190,3 +190,29 @@ func ResetConfig(r Rander, kind, target string, nops int) *Config {
 	}
 	return c
 }
+
+// FlushConfig is a directed configuration for write-back hierarchies: dirty
+// several distinct lines, then Drain, Flush with an address filter naming all of
+// them, Enable, then read them back.
+func FlushConfig(r Rander, kind string, nlines int) *Config {
+	c := GenConfig(r, kind, 2)
+	c.Ops, c.Ops2 = nil, nil
+	c.L2Ways = 4
+	c.L2Bytes = 4 * 64 * 8
+	var filter []uint64
+	for i := 0; i < nlines; i++ {
+		a := uint64(i) * 64
+		c.Ops = append(c.Ops, Op{Write: true, Addr: a + uint64(r.Intn(16))*4, Val: uint32(r.U64())})
+		filter = append(filter, a)
+	}
+	for i := 0; i < nlines; i++ {
+		c.Ops = append(c.Ops, Op{Write: false, Addr: uint64(i)*64 + uint64(r.Intn(16))*4})
+	}
+	first := 0 // pause
+	if r.Chance(1, 2) {
+		first = 1 // drain
+	}
+	c.Ctrl = []Ctrl{{After: nlines, Target: "L2", Cmd: first}, {After: nlines, Target: "L2", Cmd: 5, Addrs: filter},
+		{After: nlines, Target: "L2", Cmd: 2}}
+	return c
+}
